@@ -1,2 +1,219 @@
-(* C07 -- statements only (placeholder while the check is being built) *)
-From MJ Require Import Common.Base C07.Model C07.Spec C07.Proofs.
+(* C07 -- Value order / equality / hash laws hold and the collection filters obey their algebra.
+   Only statements here; proofs live in MJ.C07.{Float,Proofs,Filters,FilterProofs}.
+
+   Domain: [wf] values -- machine integers in the range of their representation, floats are
+   64-bit patterns (every pattern, NaN included unless [nan_free] is asked for), maps satisfy
+   the BTreeMap invariant (strictly ascending keys).  No bound on sizes or nesting.
+   [Known a b] (= cross_kind a b) describes the known-finding pair classes: a bool facing a
+   number, or a list facing a lazy iterable, at the top or at corresponding positions of two
+   containers. *)
+From Coq Require Import Sorting.Permutation.
+From MJ Require Import Common.Base C07.Model C07.Spec C07.Float C07.Proofs C07.Filters C07.FilterProofs.
+
+(* ---------------------------------------------------------------------------------------- *)
+(* the order                                                                                *)
+(* ---------------------------------------------------------------------------------------- *)
+
+(* Two numbers of any representation (i64 / u64 / i128 / u128 / f64, NaN included) compare
+   exactly like their mathematical values: no rounding, saturation or wrap-around of the
+   coercions leaks into the order. *)
+Theorem number_order_exact : forall a b, is_number a = true -> is_number b = true ->
+  wf a = true -> wf b = true -> scalar_cmp a b = (nkey a ?= nkey b).
+Proof. exact num_cmp_key. Qed.
+
+Theorem cmp_refl : forall a, wf a = true -> vcmp a a = Eq.
+Proof. exact vcmp_refl. Qed.
+
+Theorem cmp_antisym : forall a b, wf a = true -> wf b = true -> vcmp b a = CompOpp (vcmp a b).
+Proof. exact vcmp_anti. Qed.
+
+Theorem cmp_trans : forall a b c, wf a = true -> wf b = true -> wf c = true ->
+  vcmp a b <> Gt -> vcmp b c <> Gt -> vcmp a c <> Gt.
+Proof. exact vcmp_trans. Qed.
+
+(* defined for every pair *)
+Theorem cmp_total : forall a b, wf a = true -> wf b = true -> vcmp a b <> Gt \/ vcmp b a <> Gt.
+Proof. exact vcmp_total. Qed.
+
+(* Equal is a congruence: Equal values are interchangeable on either side of a comparison *)
+Theorem cmp_eq_compat : forall a b c, wf a = true -> wf b = true -> wf c = true ->
+  vcmp a b = Eq -> vcmp a c = vcmp b c /\ vcmp c a = vcmp c b.
+Proof.
+  intros a b c Wa Wb Wc E. split.
+  - destruct (vcmp_tbl a b c Wa Wb Wc) as (T1 & _). auto.
+  - destruct (vcmp_tbl c a b Wc Wa Wb) as (_ & T2 & _). auto.
+Qed.
+
+(* ---------------------------------------------------------------------------------------- *)
+(* the order agrees with ==, equal values hash identically                                  *)
+(* ---------------------------------------------------------------------------------------- *)
+Theorem cmp_eq_iff_veq : forall a b, wf a = true -> wf b = true -> nan_free a = true -> ~ Known a b ->
+  (vcmp a b = Eq <-> veq a b = true).
+Proof.
+  intros a b Wa Wb NF NK. split.
+  - apply cmp_eq_veq; auto.
+  - intros E. apply veq_cmp_eq; auto. unfold Known in NK. destruct (cross_kind a b); congruence.
+Qed.
+
+(* the direction that needs no exclusion: values that compare Equal are == (NaN aside) *)
+Theorem cmp_eq_implies_veq : forall a b, wf a = true -> wf b = true -> nan_free a = true ->
+  vcmp a b = Eq -> veq a b = true.
+Proof. intros. apply cmp_eq_veq; auto. Qed.
+
+(* [vhash] is the byte stream fed to the hasher, so this holds for every deterministic hasher *)
+Theorem veq_hash : forall a b, wf a = true -> wf b = true -> nan_free a = true -> ~ Known a b ->
+  veq a b = true -> vhash a = vhash b.
+Proof.
+  intros a b Wa Wb NF NK E. apply veq_hash_eq; auto. unfold Known in NK. destruct (cross_kind a b); congruence.
+Qed.
+
+Theorem veq_sym : forall a b, wf a = true -> wf b = true -> nan_free b = true -> ~ Known a b ->
+  veq a b = true -> veq b a = true.
+Proof.
+  intros a b Wa Wb NF NK E. apply veq_sym_proof; auto. unfold Known in NK. destruct (cross_kind a b); congruence.
+Qed.
+
+(* the known findings: the laws above are false on the excluded pair classes *)
+Example bool_number_refuted :
+  veq (VBool true) (VInt W_I64 1) = true /\ vcmp (VBool true) (VInt W_I64 1) = Lt /\
+  hash_eq (VBool true) (VInt W_I64 1) = false /\
+  veq (VBool true) (VFloat (f_of_int 1)) = true /\ vcmp (VBool true) (VFloat (f_of_int 1)) = Lt /\
+  veq (VSeq [VBool false]) (VSeq [VInt W_U64 0]) = true /\ vcmp (VSeq [VBool false]) (VSeq [VInt W_U64 0]) = Lt /\
+  Known (VBool true) (VInt W_I64 1) /\ Known (VSeq [VBool false]) (VSeq [VInt W_U64 0]).
+Proof. vm_compute. repeat split. Qed.
+
+Example seq_iterable_refuted :
+  veq (VSeq [VInt W_I64 1]) (VIter LzSized [VInt W_I64 1]) = true /\
+  vcmp (VSeq [VInt W_I64 1]) (VIter LzSized [VInt W_I64 1]) = Lt /\
+  hash_eq (VSeq [VInt W_I64 1]) (VIter LzSized [VInt W_I64 1]) = true /\
+  Known (VSeq [VInt W_I64 1]) (VIter LzSized [VInt W_I64 1]).
+Proof. vm_compute. repeat split. Qed.
+
+(* ---------------------------------------------------------------------------------------- *)
+(* the filters                                                                              *)
+(* ---------------------------------------------------------------------------------------- *)
+
+(* sort: a stable ordered permutation of the items, for every keyword option.  [sort_cmp] is
+   the comparison the filter sorts by (key extraction, case folding, reversal). *)
+Theorem sort_sorted_perm_stable : forall cs rev attr v items, wf v = true -> iter_items v = Ok items ->
+  exists out, f_sort cs rev attr v = Ok (VSeq out) /\ SortedStablePerm (sort_cmp cs rev attr) items out.
+Proof. exact sort_law_values. Qed.
+
+(* reverse=true compares the other way round: "ordered" above then reads descending, and the
+   output is still stable (equal keys keep their input order) by the same theorem *)
+Theorem sort_reverse_descending : forall cs attr a b,
+  sort_cmp cs true attr a b = CompOpp (sort_cmp cs false attr a b).
+Proof. exact sort_cmp_reverse. Qed.
+
+(* unique: an order-preserving subsequence without two Equal keys in which every key of the
+   input is still represented *)
+Theorem unique_subseq_nodup : forall cs attr v items, wf v = true -> iter_items v = Ok items ->
+  exists out, f_unique cs attr v = Ok (VSeq out) /\ UniqueLaw vcmp (unique_key cs attr) items out.
+Proof. exact unique_law_values. Qed.
+
+(* groupby: a partition by key -- the groups concatenate to the input stably sorted by key,
+   every group is non-empty with all keys Equal to its label, labels strictly ascend *)
+Theorem groupby_partition : forall cs key dflt v items, wf v = true -> wf dflt = true -> iter_items v = Ok items ->
+  exists groups, f_groupby cs key dflt v = Ok (VSeq (map (fun g => VSeq [fst g; VIter LzUnsized (snd g)]) groups)) /\
+                 GroupLaw (cmp_helper cs false) (get_path_or_default key dflt) items groups.
+Proof. exact groupby_law_values. Qed.
+
+(* known finding (pinned by the repository's snapshot): the label is the key of the group's
+   LAST item; the documentation promises the first item's *)
+Example groupby_label_refuted :
+  f_groupby false [97] VUndef
+    (VSeq [VMap [(VStr false [97], VStr false [67; 65])]; VMap [(VStr false [97], VStr false [99; 97])]])
+  = Ok (VSeq [VSeq [VStr false [99; 97];
+                    VIter LzUnsized [VMap [(VStr false [97], VStr false [67; 65])]; VMap [(VStr false [97], VStr false [99; 97])]]]]).
+Proof. vm_compute. reflexivity. Qed.
+
+(* batch: runs of [count] items whose concatenation is the input (the last run may be
+   shorter, or is padded to [count] with the fill value); count 0 is rejected *)
+Theorem batch_concat : forall count fill v items, iter_items v = Ok items ->
+  (count = 0 -> f_batch count fill v = Err E_InvalidOperation) /\
+  (0 < count -> exists runs, f_batch count fill v = Ok (VSeq (map VSeq runs)) /\ BatchLaw count fill items runs).
+Proof. exact batch_law_values. Qed.
+
+(* slice: exactly [count] runs whose lengths differ by at most 1 (longer ones first), the
+   chunks concatenate to the input, a fill value extends exactly the short runs *)
+Theorem slice_concat_balanced : forall count fill v items, iter_items v = Ok items ->
+  (count = 0 -> f_slice count fill v = Err E_InvalidOperation) /\
+  (0 < count -> exists runs, f_slice count fill v = Ok (VSeq (map VSeq runs)) /\ SliceLaw count fill items runs).
+Proof. exact slice_law_values. Qed.
+
+(* reverse: the items in reverse order, and an involution on the items -- for lists, tuples,
+   lazy iterables (sized or not), maps (their keys), strings, bytes, none, undefined *)
+Theorem reverse_involutive : forall v r, ~ KnownRev v -> f_reverse v = Ok r ->
+  match rev_items v with
+  | Some xs => r = VIter LzUnsized (rev xs) /\ f_reverse r = Ok (VIter LzUnsized xs)
+  | None => f_reverse r = Ok v
+  end.
+Proof. exact reverse_involutive_values. Qed.
+
+(* known finding (pinned by tests/test_value.rs::test_reverse): objects enumerated by
+   Enumerator::RevIter come out in forward order *)
+Example reverse_reviter_refuted :
+  f_reverse (VIter LzRev [VInt W_I64 1; VInt W_I64 2]) = Ok (VIter LzUnsized [VInt W_I64 1; VInt W_I64 2]) /\
+  f_last (VIter LzRev [VInt W_I64 1; VInt W_I64 2]) = Ok (VInt W_I64 1) /\
+  KnownRev (VIter LzRev [VInt W_I64 1; VInt W_I64 2]).
+Proof. vm_compute. repeat split. Qed.
+
+(* min / max: members that bound all others; undefined for an empty input *)
+Theorem min_max_bound : forall v items, wf v = true -> iter_items v = Ok items ->
+  exists mn mx, f_min v = Ok mn /\ f_max v = Ok mx /\
+    (items = [] -> mn = VUndef /\ mx = VUndef) /\
+    (items <> [] -> IsMin vcmp items mn /\ IsMax vcmp items mx).
+Proof. exact min_max_values. Qed.
+
+(* none of the filters panics, whatever the input and the options *)
+Theorem filters_never_panic :
+  (forall cs rev attr v, safe (f_sort cs rev attr v)) /\
+  (forall cs attr v, safe (f_unique cs attr v)) /\
+  (forall cs key d v, safe (f_groupby cs key d v)) /\
+  (forall count fill v, safe (f_batch count fill v)) /\
+  (forall count fill v, safe (f_slice count fill v)) /\
+  (forall v, safe (f_reverse v)) /\
+  (forall v, safe (f_min v)) /\
+  (forall v, safe (f_max v)) /\
+  (forall v, safe (f_last v)).
+Proof. exact filters_no_panic. Qed.
+
+(* non-vacuity: the hypotheses are met by non-trivial values, and the interesting
+   comparisons come out as the theorems say *)
+Example c07_witness :
+  let m1 := VMap (map_build [(VStr false [98], VInt W_I64 2); (VStr false [97], VFloat (f_of_int 1))]) in
+  let m2 := VMap (map_build [(VStr true [97], VInt W_U128 1); (VStr false [98], VInt W_I128 2)]) in
+  wf m1 = true /\ wf m2 = true /\ nan_free m1 = true /\ cross_kind m1 m2 = false /\
+  veq m1 m2 = true /\ vcmp m1 m2 = Eq /\ hash_eq m1 m2 = true /\
+  (* 2^63 - 1 < 2^63 (as float) = 2^63 (as u64): exact across representations *)
+  vcmp (VInt W_I64 i64_max) (VFloat (f_of_int (2 ^ 63))) = Lt /\
+  vcmp (VFloat (f_of_int (2 ^ 63))) (VInt W_U64 (2 ^ 63)) = Eq /\
+  hash_eq (VFloat (f_of_int (2 ^ 63))) (VInt W_U64 (2 ^ 63)) = true /\
+  (* 2^53 + 1 is not a float: strictly between its neighbours *)
+  vcmp (VFloat (f_of_int (2 ^ 53))) (VInt W_I64 (2 ^ 53 + 1)) = Lt /\
+  vcmp (VInt W_I64 (2 ^ 53 + 1)) (VFloat (f_of_int (2 ^ 53 + 2))) = Lt /\
+  f_sort false true None (VSeq [VInt W_I64 1; VStr false [98]; VFloat (f_of_int 1); VStr false [65]; VStr false [97]])
+    = Ok (VSeq [VStr false [98]; VStr false [65]; VStr false [97]; VInt W_I64 1; VFloat (f_of_int 1)]) /\
+  f_slice 3 (Some VNone) (VSeq [VInt W_I64 1; VInt W_I64 2; VInt W_I64 3; VInt W_I64 4])
+    = Ok (VSeq [VSeq [VInt W_I64 1; VInt W_I64 2]; VSeq [VInt W_I64 3; VNone]; VSeq [VInt W_I64 4; VNone]]).
+Proof. vm_compute. repeat split. Qed.
+
+Print Assumptions number_order_exact.
+Print Assumptions cmp_refl.
+Print Assumptions cmp_antisym.
+Print Assumptions cmp_trans.
+Print Assumptions cmp_total.
+Print Assumptions cmp_eq_compat.
+Print Assumptions cmp_eq_iff_veq.
+Print Assumptions cmp_eq_implies_veq.
+Print Assumptions veq_hash.
+Print Assumptions veq_sym.
+Print Assumptions sort_sorted_perm_stable.
+Print Assumptions sort_reverse_descending.
+Print Assumptions unique_subseq_nodup.
+Print Assumptions groupby_partition.
+Print Assumptions batch_concat.
+Print Assumptions slice_concat_balanced.
+Print Assumptions reverse_involutive.
+Print Assumptions min_max_bound.
+Print Assumptions filters_never_panic.
